@@ -23,6 +23,10 @@ SYNC = [
     'if (a): pass', 'if ((a, b)): pass\nelif (c): pass', 'while ((a, b)): pass', 'while (a): pass',
     'x = (a, b)', 'x = ((a))', 'x: (a) = (b)', 'x += (a, b)', 'x = y = (a, b)', '(x) = (y)', '(x, y) = z', 'x = a, b',
     '[(a, b) for (c, d) in (e, f) if (g)]', 'x = lambda: (a, b)', 'x = (a if (b) else (c))', 'global g', 'x = (yield)',
+    '(x): int = 1', '(x): int', '((x)): int = 1', 'x: int = 1', 'x: int', '(a.b): int', '(a.b): int = 2', '(a[0]): int = 3',
+    'a[0]: int', 'x: (int) = (1)', 'class D:\n    (attr): "list[int]" = []\n    other: str', '(\n  total  # c\n): float = 0.0',
+    'from . import a', 'from .. import (a)', 'from ...m import (a as b, c)', "x = u'a'", "x = (u'a' 'b')", 'x = [i async for i in j]',
+    'x = (i async for (i) in (j))', 'global g', 'import a.b as c',
     'print((a, b), end=(c))', 'x = {(a): (b)}', 'x = {*(a), (b)}', 'x = (a)(b)', 'x = (a).b', 'x = -(a)', 'x = (a) + (b)',
 ]
 ASYNC = [
@@ -56,6 +60,34 @@ def programs():
             continue
         good.append((m, src))
     return good
+
+
+def parenthesised_variants(src):
+    """[(variant source, (lineno, col_offset) of the wrapped node in the variant)] — every expression of `src` wrapped in one
+    more pair of parentheses, kept when CPython still parses it (the variant is its own reference)"""
+    out = []
+    tree = ast.parse(src)
+    lines = src.split('\n')
+    seen = set()
+    for n in ast.walk(tree):
+        if not isinstance(n, ast.expr) or isinstance(n, (ast.Starred, ast.Slice, ast.JoinedStr, ast.FormattedValue)):
+            continue
+        key = (n.lineno, n.col_offset, n.end_lineno, n.end_col_offset)
+        if key in seen or not src.isascii():
+            continue
+        seen.add(key)
+        ls = list(lines)
+        el, ec = n.end_lineno - 1, n.end_col_offset
+        ls[el] = ls[el][:ec] + ')' + ls[el][ec:]
+        sl, sc = n.lineno - 1, n.col_offset
+        ls[sl] = ls[sl][:sc] + '(' + ls[sl][sc:]
+        v = '\n'.join(ls)
+        try:
+            ast.parse(v)
+        except SyntaxError:
+            continue
+        out.append((v, (n.lineno, n.col_offset + 1), type(n).__name__))
+    return out
 
 
 # sync / async twins with an expression slot whose delimiters are shared with the statement: (source, field path of the slot)
